@@ -397,6 +397,59 @@ def tuple_assignments(fn) -> int:
     return done
 
 
+def literal_loops(fn) -> int:
+    """for a, b in zip((x1, x2), (y1, y2)): body   ->   body[a:=x1, b:=y1]; body[a:=x2, b:=y2]      (also `for a in (x1, x2)`)
+    for at most four literal elements, when the body neither re-binds the loop variables nor breaks / continues and the variables are
+    not read after the loop."""
+    done = 0
+
+    def elements(it):
+        if isinstance(it, (ast.Tuple, ast.List)) and 1 <= len(it.elts) <= 4 and not any(isinstance(x, ast.Starred) for x in it.elts):
+            return [[x] for x in it.elts]
+        if isinstance(it, ast.Call) and isinstance(it.func, ast.Name) and it.func.id == "zip" and not it.keywords and it.args \
+                and all(isinstance(a, (ast.Tuple, ast.List)) and not any(isinstance(x, ast.Starred) for x in a.elts) for a in it.args) \
+                and len({len(a.elts) for a in it.args}) == 1 and 1 <= len(it.args[0].elts) <= 4:
+            return [[a.elts[k] for a in it.args] for k in range(len(it.args[0].elts))]
+        return None
+
+    for lst in _blocks(fn):
+        i = 0
+        while i < len(lst):
+            st = lst[i]
+            if isinstance(st, ast.For) and not st.orelse:
+                rows = elements(st.iter)
+                tg = st.target
+                names = [tg] if isinstance(tg, ast.Name) else (list(tg.elts) if isinstance(tg, (ast.Tuple, ast.List)) else None)
+                if rows is not None and names is not None and all(isinstance(n, ast.Name) for n in names) and all(len(r) == len(names) for r in rows) \
+                        and (isinstance(tg, ast.Name) or isinstance(st.iter, ast.Call)):
+                    ids = [n.id for n in names]
+                    body_nodes = [x for b in st.body for x in ast.walk(b)]
+                    rebinding = any(isinstance(x, ast.Name) and x.id in ids and isinstance(x.ctx, (ast.Store, ast.Del)) for x in body_nodes)
+                    jumps = any(isinstance(x, (ast.Break, ast.Continue)) for x in body_nodes)
+                    nested_scope = any(isinstance(x, FuncDef + (ast.Lambda,)) for x in body_nodes)
+                    later = any(isinstance(x, ast.Name) and x.id in ids for rest in lst[i + 1:] for x in ast.walk(rest))
+                    simple = all(isinstance(e, (ast.Name, ast.Attribute, ast.Constant, ast.Subscript)) for r in rows for e in r)
+                    if not (rebinding or jumps or nested_scope or later) and simple:
+                        new: List[ast.stmt] = []
+                        for r in rows:
+                            sub = dict(zip(ids, r))
+
+                            class S(ast.NodeTransformer):
+                                def visit_Name(self, n):
+                                    if n.id in sub and isinstance(n.ctx, ast.Load):
+                                        return ast.copy_location(copy.deepcopy(sub[n.id]), n)
+                                    return n
+                            for b in st.body:
+                                new.append(S().visit(copy.deepcopy(b)))
+                        for n in new:
+                            ast.fix_missing_locations(n)
+                        lst[i:i + 1] = new
+                        done += 1
+                        continue
+            i += 1
+    return done
+
+
 def negated_branches(fn) -> int:
     """if not c: A else: B   ->   if c: B else: A      (one polarity for two-way branches; elif chains are left alone)"""
     done = 0
@@ -488,6 +541,7 @@ def apply(tree: ast.Module) -> int:
     done += boolean_ints(tree)
     for node in ast.walk(tree):
         if isinstance(node, FuncDef):
+            done += literal_loops(node)
             done += tuple_assignments(node)
             done += negated_branches(node)
             done += conditional_assignments(node)
